@@ -2,6 +2,7 @@
 // compared with select() on a freshly built neighbourhood holding the same final parameters.
 #pragma once
 #include "Neigh/NeighMoving.hpp"
+#include "Neigh/NeighBench.hpp"
 namespace nm {
 
 static Db* makeDb()
@@ -31,6 +32,22 @@ static Db* makeDbSectors()
   for (double a : v) tab.push_back(a);
   return Db::createFromSamples(N, ELoadBy::COLUMN, tab, {"x1", "x2", "z1"}, {"x1", "x2", "z1"}, false);
 }
+// "bench" layout: 3-D samples on three levels; targets 0 and 1 lie in different benches
+static Db* makeDbBench()
+{
+  const int N = 18;
+  VectorDouble x(N), y(N), z(N), v(N);
+  unsigned long long st = 2463534242ULL;
+  auto rnd = [&st]() { st ^= st << 13; st ^= st >> 7; st ^= st << 17; return (double)(st % 1000003ULL) / 1000003.0; };
+  for (int i = 0; i < N; i++) { x[i] = 3. * rnd(); y[i] = 3. * rnd(); z[i] = (double)(i % 3) * 2.; v[i] = rnd(); }
+  VectorDouble tab;
+  for (double a : x) tab.push_back(a);
+  for (double a : y) tab.push_back(a);
+  for (double a : z) tab.push_back(a);
+  for (double a : v) tab.push_back(a);
+  return Db::createFromSamples(N, ELoadBy::COLUMN, tab, {"x1", "x2", "x3", "z1"}, {"x1", "x2", "x3", "z1"}, false);
+}
+static bool G_BENCH = false;
 static bool G_SECT = false;
 static NeighMoving* makeNeigh(int nmaxi)
 {
@@ -46,8 +63,49 @@ static void applyPar(NeighMoving* n, const Par& p, Db* db)
   n->setRankColCok(p.colcok ? VectorInt{db->getUID("z1")} : VectorInt());
 }
 
+// bench layout: same histories on a NeighBench (the NeighMoving-specific setters are no-ops here)
+static Value runBench(const Value& script)
+{
+  defineDefaultSpace(ESpaceType::RN, 3);
+  Db* db = makeDbBench();
+  bool xvalid = false;
+  SpaceRN space(3);
+  NeighBench* n = NeighBench::create(false, 1., &space);
+  n->attach(db, db);
+  Value obs = Value::array();
+  int step = 0;
+  for (auto& h : script.at("hist").arr)
+  {
+    step++;
+    std::string op = h.at("op").s();
+    if (op == "select")
+    {
+      int t = h.at("t").i();
+      VectorInt r1; n->select(t, r1);
+      NeighBench* f = NeighBench::create(xvalid, 1., &space);
+      f->attach(db, db);
+      VectorInt r2; f->select(t, r2);
+      delete f;
+      std::vector<int> a(r1.begin(), r1.end()), b(r2.begin(), r2.end());
+      std::sort(a.begin(), a.end()); std::sort(b.begin(), b.end());
+      Value o = Value::object();
+      o["step"] = Value(step); o["t"] = Value(t);
+      o["got"] = Value::arrayOf(a); o["fresh"] = Value::arrayOf(b);
+      o["equal"] = Value(a == b);
+      obs.push(o);
+    }
+    else if (op == "setFlagXvalid") { xvalid = h.at("v").boolean(); n->setFlagXvalid(xvalid); }
+    else if (op == "attach") n->attach(db, db);
+    else if (op == "clone") { NeighBench* c = new NeighBench(*n); delete n; n = c; }
+  }
+  delete n; delete db;
+  defineDefaultSpace(ESpaceType::RN, 2);
+  return obs;
+}
+
 Value run(const Value& script)
 {
+  if (script.has("layout") && script.at("layout").s() == "bench") return runBench(script);
   G_SECT = script.has("layout") && script.at("layout").s() == "sectors";
   Db* db = G_SECT ? makeDbSectors() : makeDb();
   Par par;
